@@ -491,9 +491,9 @@ def model_single(c, mc, call, am_impl, pieces):
     vals = [int(v) for v in values_for(n, call.get("var", 0))]
     per = PER[call["periodic"]]
     if call["export"] == "poly":
-        return "poly", sx(["@V", per, n, am_impl, nan, pieces, vals])
+        return "poly", sx([per, n, am_impl, nan, pieces, vals])
     if call["export"] == "gdf":
-        return "gdf", sx(["@V", per, n, am_impl, nan, vals])
+        return "gdf", sx([per, n, am_impl, nan, vals])
     return "line", sx([per, n, am_impl, nan])
 
 
